@@ -101,8 +101,8 @@ def forged_signature(obj, auto=True, args=(), kwargs={}):
             h = subject._sigtools__autoforwards_hint(subject)
             if h is not None:
                 try:
-                    ret = _autoforwards.autoforwards_ast(
-                        *h, args=args, kwargs=kwargs)
+                    ret = _autoforwards.autoforwards_hinted(
+                        h, args, kwargs)
                 except (_autoforwards.UnknownForwards, RecursionError):
                     pass
                 else:
